@@ -91,7 +91,7 @@ def _with_duplicates(rng, init):
     return init
 
 
-def gen(stratum, rng, tier):
+def _gen(stratum, rng, tier):
     if stratum == "cs-random":
         W = rng.randint(4, 14)
         m = rng.randint(1, 4)
@@ -182,7 +182,7 @@ def gen(stratum, rng, tier):
         # the same instances under cut-off configurations: tiny max_iter, node limits, on_progress callbacks
         # that stop the search at their k-th call.  A cut-off answer may be FEASIBLE, never a wrong OPTIMAL.
         base = rng.choice(["cs-random", "cs-halves", "cs-deep", "cs-two"]) if stratum == "cs-config" else rng.choice(["custom-cols", "custom-cycles"])
-        c = gen(base, rng, tier)
+        c = _gen(base, rng, tier)
         c.pop("bp_max_nodes", None)
         c.pop("bp_max_iter", None)
         how = rng.choice(["max_iter", "max_iter", "stop", "stop"])
@@ -529,6 +529,14 @@ def _run(case, obs):
 # ---------------------------------------------------------------- minimisation / findings
 
 _LAST = {"hang": False}
+
+
+def gen(stratum, rng, tier):
+    case = _gen(stratum, rng, tier)
+    if case.get("kind") == "cs" and rng.random() < 0.03:
+        # nothing ordered (a day without orders): the empty plan, zero rolls - and an answer of its own every time
+        case["dem"] = [0] * len(case["dem"])
+    return case
 
 
 def shrink(case):
